@@ -13,6 +13,7 @@ import SlogModel.Model.Pipe
 import SlogModel.Model.FlushPolicy
 import SlogModel.Model.CfgSer
 import SlogModel.Model.Pool
+import SlogModel.Model.CfgFile
 import SlogModel.Gen.Facts
 import Driver.Util
 import Driver.XformParse
@@ -354,6 +355,24 @@ def handleCfg (st : DState) : List String → DState × String
         | .error p => (st, s!"accept-but-construct-panics {p.name}")
       else (st, "reject")
     | _, _, _, _, _ => (st, "bad-op")
+  | ["head", maxF, fields, keys, tag, parts, mkeys] =>
+    -- the head of the file: schema (fields, maxFields), orchestration keys / tag (text + parse), metric keys
+    let names (t : String) : Option (List Bytes) :=
+      if t == "-" then some [] else (t.splitOn ",").mapM (fun h => if h.startsWith "x" then unhex (h.drop 1).toString else none)
+    let part (t : String) : Option Cfg.TPart :=
+      if t.startsWith "l" then (unhex (t.drop 1).toString).map .lit
+      else if t.startsWith "v" then (unhex (t.drop 1).toString).map .var else none
+    let tp : Option Cfg.Tmpl :=
+      if parts == "none" then some none else if parts == "-" then some (some []) else ((parts.splitOn ",").mapM part).map some
+    match maxF.toNat?, names fields, names keys, (if tag == "-" then some [] else unhex tag), tp, names mkeys with
+    | some maxF, some fields, some keys, some tag, some tp, some mkeys =>
+      let h : CfgFile.Head := { fields := fields, maxFields := maxF, orchKeys := keys, tag := tag, tagParts := tp, metricKeys := mkeys }
+      if CfgFile.verify h then
+        match CfgFile.construct h with
+        | .ok _ => (st, "accept")
+        | .error p => (st, s!"accept-but-construct-panics {p.name}")
+      else (st, "reject")
+    | _, _, _, _, _, _ => (st, "bad-op")
   | "verify" :: toks =>
     match Drv.parseCfg toks with
     | none => (st, "bad-op")
